@@ -604,7 +604,7 @@ class Driver:
                                    "detail": f"regular state {name} (not must_finish) ran in an iteration without engage()"})
                     break
         self.acc.checks += 2
-        if direct:
+        if direct and self.pid == "C01":
             return self._diverge(direct, ["execute"], obs=obs_calls, now=now)
         branches = []
         stopped_before = not running_before and not req_before
@@ -652,6 +652,16 @@ class Driver:
             survivors = [(b[0], b[1]) for b in consistent]
             survivors.sort(key=lambda x: len(x[0].c02))
         else:
+            if self.pid == "C04" and branches and all(b[0].stop_predicted for b in branches):
+                # whatever else went wrong in this call (e.g. a state ran that should not have - C01's business), every
+                # reading of the statements says the machine had to stop here: C04's obligations apply to what is observable
+                is_ex, cs = m.is_executing, m.current_state
+                self.acc.checks += 3
+                if n_done < 1 or is_ex is not False or cs != "":
+                    return self._diverge([{"kind": "stop-obligations", "props": {"C04"},
+                                           "detail": f"the machine had to stop in this iteration (engage() no longer called outside a must_finish "
+                                                     f"state / last state expired): done() invoked {n_done} times, is_executing={is_ex!r}, "
+                                                     f"current_state={cs!r}"}], ["execute"], pred=branches[0][0], obs=obs_calls, now=now)
             # no reading of the statements explains the observation.  It is evidence against this property only
             # if every branch diverges in one of this property's clauses.
             mine = [b for b in branches if any(self.pid in d["props"] for d in b[2])]
